@@ -36,6 +36,7 @@ def BOUNDS(tier):
 
 def tasks(tier, seed):
     shs = shapes.shape_set(tier, seed, twosided=True, quick_n=30, thorough_n=400)
+    shs = [s for s in shs if s.np <= 4 and s.ns <= 4]      # the wide corner shapes (two-digit ids) are C10 / C01 / C02 material
     if tier == 'quick':
         shs = [s for s in shs if s.ns <= 3]
     else:
